@@ -10,6 +10,7 @@ CONSTANTS K,          \* maximal number of operators in the outer chain
           OpsUsed,    \* operator spellings used in the outer chain
           SubOps,     \* operator spellings used inside parentheses
           Lits,       \* integer literals that may stand as operands ("-2" is written - 2 and parsed to one literal)
+          Long,       \* TRUE: long chains - the case carries the operator sequence instead of the reference tree (judged locally)
           Nest        \* nesting depths of a parenthesised operand: 2 = ((...)) directly doubled
 
 VARIABLES chain, tree, special
@@ -25,7 +26,9 @@ Operands(i) == {[f |-> "ref", i |-> i]} \cup {[f |-> "lit", i |-> i, v |-> v] : 
                      \cup {[f |-> "npar", i |-> i, sub |-> s, d |-> d] : s \in SubChains, d \in Nest})
 IsSpecial(x) == x.f \notin {"ref", "lit"}
 
-Emit(c) == CSVWrite("%1$s", <<ToJson([toks |-> ChainToks(c), want |-> RefTree(c),
+EmitLong(c) == CSVWrite("%1$s", <<ToJson([toks |-> ChainToks(c), ops |-> [j \in 1..Len(c.items) |-> CanonOp(c.items[j].op)],
+                                          nops |-> Len(c.items), special |-> 0, long |-> TRUE])>>, CaseFile)
+Emit(c) == IF Long THEN EmitLong(c) ELSE CSVWrite("%1$s", <<ToJson([toks |-> ChainToks(c), want |-> RefTree(c),
                                       nops |-> Len(c.items), special |-> Len(SelectSeq(<<c.first>> \o [j \in 1..Len(c.items) |-> c.items[j].x], IsSpecial))])>>, CaseFile)
 
 Init == \E x \in Operands(0) :
@@ -39,7 +42,7 @@ Step == /\ Len(chain.items) < K
              /\ special + (IF IsSpecial(x) THEN 1 ELSE 0) <= MaxSpecial
              /\ LET c2 == [chain EXCEPT !.items = Append(@, [op |-> o, x |-> x])] IN
                   /\ chain' = c2
-                  /\ tree' = Insert(tree, o, Atom(x, IsRegexOp(o), TRUE))
+                  /\ tree' = IF Long THEN tree ELSE Insert(tree, o, Atom(x, IsRegexOp(o), TRUE))
                   /\ special' = special + (IF IsSpecial(x) THEN 1 ELSE 0)
                   /\ Emit(c2)
 Next == Step
@@ -51,4 +54,6 @@ Agree == tree = RefTree(chain)
 Fold == tree = DesignTree(chain)
 \* M: printing and re-parsing keeps the grouping, except for the named deviation
 ReparseStable == (Reparse(tree) = tree) \/ HasSignedRhsUnderL5(tree)
+\* M: the local characterisation holds of the reference tree (with only plain / literal operands no ambiguity from signs)
+Local == LocallyGrouped(RefTree(chain))
 =============================================================================
